@@ -55,7 +55,7 @@ def stats(trace):
                     ids = [p["id"] for p in e["params"]]
                     if len(ids) != len(set(ids)):
                         c["dup_accepted"] += 1
-                    if any(p["id"] == 13 and p["v"][36:38] == "00" for p in e["params"]):
+                    if any(p["id"] == 13 and p["v"][48:50] == "00" for p in e["params"]):
                         c["pa_zero_cid_accepted"] += 1
             elif k in ("recv", "scid"):
                 if k == "recv" and e.get("zrtt") in ("yes", "no"):
@@ -91,7 +91,7 @@ def run(tier, rep):
     fams = '{"sweep", "cids", "idle", "zrtt"}' if quick else '{"sweep", "cids", "idle", "zrtt", "pairs"}'
     t1, s1 = _gen_replay(rep, "allpaths", {"Families": fams, "MaxMods": 1})
     t2, s2 = _gen_replay(rep, "random", {"Families": '{"randlegal", "randany"}', "MaxMods": 0},
-                         simulate={"num": 150 if quick else 4000, "depth": 30})
+                         simulate={"num": 150 if quick else 12000, "depth": 30})
     trace = os.path.join(vlib.workdir(PID), "trace_all.ndjson")
     with open(trace, "w") as out:
         for t in (t1, t2):
